@@ -9,6 +9,7 @@ import time
 import traceback
 
 from . import core
+from harness.par import HarnessTimeout
 from .core import VERIF
 
 
@@ -136,6 +137,7 @@ class Ctx:
 
 def run_property(pid, tier, seed):
     t0 = time.time()
+    os.environ.setdefault('VERIF_MAP_TIMEOUT', '1800' if tier == 'quick' else '10800')
     prop = importlib.import_module('props.' + pid)
     ctx = Ctx(pid, tier, seed)
     ld = ctx.ld
@@ -224,6 +226,8 @@ def run_property(pid, tier, seed):
                 ground_res = prop.ground(ctx)
             else:
                 floor_res = prop.floor(ctx)
+        except HarnessTimeout as e:
+            undecided.append({'clause': '%s:%s-stage' % (pid, stage), 'reason': str(e)})
         except Exception as e:
             # An exception that escapes from library code while the bounded stand-in drives it with inputs of the
             # property's domain is a behaviour the unchanged tree does not have: reported as a violation (with the
@@ -274,7 +278,12 @@ def run_property(pid, tier, seed):
     conf_res = None
     if all_targets and os.environ.get('VERIF_NO_CONFORMANCE') != '1':
         from harness import conformance
-        conf_res = conformance.run(ctx, pid, all_targets)
+        try:
+            conf_res = conformance.run(ctx, pid, all_targets)
+        except HarnessTimeout as e:
+            conf_res = {'violations': [], 'monitor_evaluations': 0, 'monitor_clauses_evaluated': 0, 'monitor_pre_miss': 0,
+                        'monitor_items': 0, 'monitor_rule': 'gave up: %s' % e,
+                        'monitor_clauses_not_evaluable_at_run_time': []}
         cseen = set()
         for v in conf_res['violations']:
             if v['clause'] in cseen:
